@@ -57,7 +57,7 @@ package util
 //@ func ExtendSlice
 //@   prop C20, C16
 //@   requires 0 <= need && need <= 1<<46 && cap(xs) <= 1<<46
-//@   ensures [len] len(result) == need && cap(result) >= need
+//@   ensures [len] len(result) == need && cap(result) >= need && cap(result) <= max(old(cap(xs)), 4*need + 4096)
 //@   ensures [inplace] need <= old(cap(xs)) ==> ptr(result) == old(ptr(xs)) && cap(result) == old(cap(xs))
 //@   ensures [kept] forall j :: 0 <= j && j < min(need, old(cap(xs))) ==> result[j] == old(xs[j])
 //@   ensures [grown] need > old(cap(xs)) ==> fresh(result) && (forall j :: old(cap(xs)) <= j && j < need ==> iszero(result[j]))
